@@ -734,7 +734,7 @@ impl PestParser for PlaceholderDeclarationParser {
 
     type InternalParser = internal::Parser;
     type Rule = internal::Rule;
-    const RULE: internal::Rule = internal::Rule::placeholder_declaration;
+    const RULE: internal::Rule = internal::Rule::placeholder_declaration_eoi;
 
     fn translate_pair(pair: pest::iterators::Pair<'_, Self::Rule>) -> Self::Node {
         if pair.as_rule() != internal::Rule::placeholder_declaration {
